@@ -127,7 +127,7 @@ package stream
 //@ ensures.DcpScopeCreation[C01,C05,C06] typeis(ev, models.InternalDcpScopeCreation) ==> dcalls("stream.(*stream).waitAndForward") == 0 && dcalls("stream.(*stream).setOffset") == 1 && arg("stream.(*stream).setOffset", 0, s) == s && arg("stream.(*stream).setOffset", 0, vbID) == as(ev, models.InternalDcpScopeCreation).DcpScopeCreation.VbID && arg("stream.(*stream).setOffset", 0, offset) == as(ev, models.InternalDcpScopeCreation).Offset && arg("stream.(*stream).setOffset", 0, dirty) == true
 //@ ensures.DcpScopeDeletion[C01,C05,C06] typeis(ev, models.InternalDcpScopeDeletion) ==> dcalls("stream.(*stream).waitAndForward") == 0 && dcalls("stream.(*stream).setOffset") == 1 && arg("stream.(*stream).setOffset", 0, s) == s && arg("stream.(*stream).setOffset", 0, vbID) == as(ev, models.InternalDcpScopeDeletion).DcpScopeDeletion.VbID && arg("stream.(*stream).setOffset", 0, offset) == as(ev, models.InternalDcpScopeDeletion).Offset && arg("stream.(*stream).setOffset", 0, dirty) == true
 //@ ensures.DcpCollectionModification[C01,C05,C06] typeis(ev, models.InternalDcpCollectionModification) ==> dcalls("stream.(*stream).waitAndForward") == 0 && dcalls("stream.(*stream).setOffset") == 1 && arg("stream.(*stream).setOffset", 0, s) == s && arg("stream.(*stream).setOffset", 0, vbID) == as(ev, models.InternalDcpCollectionModification).DcpCollectionModification.VbID && arg("stream.(*stream).setOffset", 0, offset) == as(ev, models.InternalDcpCollectionModification).Offset && arg("stream.(*stream).setOffset", 0, dirty) == true
-//@ ensures.other[C03] !typeis(ev, models.InternalDcpMutation) && !typeis(ev, models.InternalDcpDeletion) && !typeis(ev, models.InternalDcpExpiration) && !typeis(ev, models.InternalDcpSeqNoAdvance) && !typeis(ev, models.InternalDcpCollectionCreation) && !typeis(ev, models.InternalDcpCollectionDeletion) && !typeis(ev, models.InternalDcpCollectionFlush) && !typeis(ev, models.InternalDcpScopeCreation) && !typeis(ev, models.InternalDcpScopeDeletion) && !typeis(ev, models.InternalDcpCollectionModification) ==> dcalls("stream.(*stream).waitAndForward") == 0 && dcalls("stream.(*stream).setOffset") == 0 && unchanged(s.offsets) && unchanged(s.dirtyOffsets) && s.anyDirtyOffset == old(s.anyDirtyOffset)
+//@ ensures.other[C03,C01,C05,C06] !typeis(ev, models.InternalDcpMutation) && !typeis(ev, models.InternalDcpDeletion) && !typeis(ev, models.InternalDcpExpiration) && !typeis(ev, models.InternalDcpSeqNoAdvance) && !typeis(ev, models.InternalDcpCollectionCreation) && !typeis(ev, models.InternalDcpCollectionDeletion) && !typeis(ev, models.InternalDcpCollectionFlush) && !typeis(ev, models.InternalDcpScopeCreation) && !typeis(ev, models.InternalDcpScopeDeletion) && !typeis(ev, models.InternalDcpCollectionModification) ==> dcalls("stream.(*stream).waitAndForward") == 0 && dcalls("stream.(*stream).setOffset") == 0 && unchanged(s.offsets) && unchanged(s.dirtyOffsets) && s.anyDirtyOffset == old(s.anyDirtyOffset)
 //@ modifies content(s.offsets), content(s.dirtyOffsets), s.anyDirtyOffset, s.metric.DcpLatency, s.metric.ProcessLatency, calls(models.Consumer.TrackOffset), calls(models.Consumer.ConsumeEvent), calls("stream.(*stream).setOffset"), calls("stream.(*stream).waitAndForward")
 
 // ---------- checkpoint (C01, C02, C05, C06) ----------
@@ -386,6 +386,7 @@ package stream
 //@ ensures.bracket[C11] wasopen ==> calls(models.EventHandler.BeforeStreamStop) == 1 && calls(models.EventHandler.AfterStreamStop) == 1 && ts(models.EventHandler.BeforeStreamStop, 0) < ts("stream.(*stream).closeAllStreams", 0) && ts("stream.(*stream).closeAllStreams", 0) < ts(models.EventHandler.AfterStreamStop, 0)
 //@ ensures.impl_switches[C13] wasopen ==> dcalls("wrapper.(*ConcurrentSwissMap).Range") == 2 && isclosure(darg("wrapper.(*ConcurrentSwissMap).Range", 0, f), "stream.(*stream).Close$1") && isclosure(darg("wrapper.(*ConcurrentSwissMap).Range", 1, f), "stream.(*stream).Close$2") && darg("wrapper.(*ConcurrentSwissMap).Range", 0, m) == old(s.observers) && darg("wrapper.(*ConcurrentSwissMap).Range", 1, m) == old(s.observers) && ts("wrapper.(*ConcurrentSwissMap).Range", 0) < ts("stream.(*stream).closeAllStreams", 0) && ts("stream.(*stream).closeAllStreams", 0) < ts("wrapper.(*ConcurrentSwissMap).Range", 1)
 //@ ensures.mitigation[C13] wasopen && !s.config.RollbackMitigation.Disabled ==> calls(couchbase.RollbackMitigation.Stop) == 1
+//@ ensures.schedule_stopped[C13] wasopen && old(s.checkpoint) != nil ==> calls(stream.Checkpoint.StopSchedule) == 1
 //@ ensures.token[C11,C12] wasopen ==> sends(s.finishStreamWithCloseCh) == ite(s.streamFinishedWithEndEventCh, 0, 1)
 //@ modifies s.closeWithCancel, s.observers, s.offsets, s.dirtyOffsets, s.open, chan(s.finishStreamWithCloseCh), calls(models.EventHandler.BeforeStreamStop), calls(models.EventHandler.AfterStreamStop), calls("stream.(*stream).closeAllStreams"), calls(couchbase.Client.CloseStream), calls("go:stream.(*stream).closeAllStreams$1$1"), calls(couchbase.Observer.Close), calls(couchbase.Observer.CloseEnd), calls(couchbase.RollbackMitigation.Stop), calls(stream.Checkpoint.StopSchedule), calls("time.(*Timer).Stop"), calls("wrapper.(*ConcurrentSwissMap).Range")
 
